@@ -16,7 +16,7 @@ CHECKS = [
               "within the bounds, so the right level for a property quantified over schedules and fault sequences.",
          note="Dyadic parameters only (double arithmetic exact, isclose = equality); states needing resolution finer than 2^-12 are pruned; "
               "graphs larger than the node budget are cut breadth-first (reported as truncated). The driver transcribes the loop of "
-              "run_time_dependent_model and the compute_time_step calls of SolutionStrategy."),
+              "run_time_dependent_model and the compute_time_step calls of SolutionStrategy. A second family judges arbitrary float parameters within a tolerance (Eps monitor), including near misses of scheduled times (relative gap 2e-7..4e-6 at times up to 3000)."),
     dict(id="C08", level=MC, technique="TLC model-checks the C08 clauses on the transition graph recorded from the real storage helpers "
          "(contents + memory-sharing pattern); TLC trace-validates every recorded edge against the heap model spec/sys/HistoryStore.tla",
          text="Every history of set (time-step / iterate / both, overwrite / additive), get, shift and caller-side writes into arrays it holds, "
@@ -54,7 +54,7 @@ CHECKS = [
               "invert_diagonal_blocks (python and numba paths); row/column-permuted block-diagonal matrices go through "
               "generate_permutation_to_block_diag_matrix (ValidPerm predicate) and invert_permuted_block_diag_matrix; TLC multiplies back exactly.",
          note="Results are rounded when within 1e-9 of an integer (otherwise the case fails). A coarser but valid block decomposition is reported as DRIFT, "
-              "since the property only asks that square blocks are exposed. The linear algebra kernels are black boxes (validated per input)."),
+              "since the property only asks that square blocks are exposed. The linear algebra kernels are black boxes (validated per input). Every fifth input is executed again with all entries scaled by 2^-50 and 2^40."),
     dict(id="C38", level=MC, technique="TLC enumerates cell-type layouts / export routes / time histories (spec/sys/ExportImport.tla) and judges the "
          "real Exporter write -> import round trips cell by cell (J_ExportImport); exported block layout compared with the model (DRIFT)",
          text="All layouts of 1-2 grids with up to 3 (quick) / 5 (thorough) cells over triangle/quad/pentagon (and 3D analogues) are realised as "
@@ -62,7 +62,7 @@ CHECKS = [
               "restored with import_state_from_vtu / import_from_pvd / the DataSavingMixin route; TLC checks that every subdomain and interface "
               "gets back the values written at the latest step and that time information is restored.",
          note="The way data are handed to write_vtu (state keys / per-grid tuples in md-grid order / permuted tuples) is part of the enumerated family. Two recorded known findings (polyhedron block order in 3D; mixin plain-pvd time used as index) suppress exactly their classes. "
-              "Point data and export_constants_separately are not covered. Quick tier runs workers with NUMBA_DISABLE_JIT=1."),
+              "Point data and export_constants_separately are not covered. Quick tier runs workers with NUMBA_DISABLE_JIT=1. The md-grid pvd route runs over step lists (9, 10; 99, 100 ...)."),
     dict(id="C27", level=MC, technique="TLC enumerates ordered sublists of subdomains / interfaces / boundary grids and vector dimensions "
          "(spec/ref/GridProjectionsFamily.tla) and judges the real projection matrices entry by entry (J_GridProjections)",
          text="For real md-grids (2D host with crossing fractures and intersection point, 3D host with a fracture, thorough: more fractures and a "
@@ -105,7 +105,7 @@ CHECKS = [
          "(J_Distance)",
          text="point-point, point-segment, segment-segment, point-polygon and segment-polygon distances are compared (squared, as rationals) with the exact reference and "
               "the returned closest points must lie on the objects at that distance; families include parallel, collinear, touching and skew placements in 2D/3D.",
-         note="Doubles are converted to rationals with a 1e-9 relative tolerance (0 inconclusive cases). One known finding (segment_set always raises)."),
+         note="Doubles are converted to rationals with a 1e-9 relative tolerance (0 inconclusive cases). One known finding (segment_set always raises). segment_segment_set: short main segments against every segment of a longer lattice (parallel / collinear beyond the ends)."),
     dict(id="C44", level=TV, technique="TLC enumerates lattice segments x polygons and convex polygons x tilings (spec/ref/ClipFamilies.tla) and judges lines_by_polygon / "
          "polygons_by_polyhedron outputs with exact predicates (J_Clip)",
          text="lines_by_polygon: returned pieces lie inside and their union equals the exact inside intervals, tags carried; polygons_by_polyhedron: validated through "
@@ -117,11 +117,11 @@ CHECKS = [
          text="Cartesian/tensor/simplex grids in 1D-3D, re-orientations, shears, lattice perturbations, hand-built polygons/prisms with hanging nodes: porepy's own numbers "
               "must satisfy positivity, volume sum, |n| = area, outward normals, closedness, divergence and centroid identities, and equal the exact values (shoelace / "
               "signed tetrahedra), all in exact rational arithmetic.",
-         note="Integer node coordinates; non-planar faces and other inputs outside the property's family are decided by TLC and counted, not judged."),
+         note="Integer node coordinates; non-planar faces and other inputs outside the property's family are decided by TLC and counted, not judged. A quarter / third of the grids are judged again at the physical scales 2^-14 and 2^10 (exact rescaling)."),
     dict(id="C20", level=TV, technique="TLC computes R x + t exactly for rational rigid motions and judges compute_geometry of the moved grid (J_Equivariance)",
          text="24 signed permutations, integer-quaternion rotations with |q|^2 in {9,25,49}, products and integer translations applied to the C19 families (1D/2D grids "
               "embedded in 3D through them): volumes and areas unchanged, centres and normals transformed by the same motion, exactly.",
-         note="map_grid itself is not covered (compute_geometry does not call it)."),
+         note="map_grid itself is not covered (compute_geometry does not call it). One motion per grid translates by (8192, 4096, 2048) (the harness subtracts the translation again before the exact comparison)."),
     dict(id="C23", level=TV, technique="TLC judges refine_grid_1d, remesh_1d, refine_triangle_grid, extrude_grid, extrude_mdg, structured_refinement outputs with the exact "
          "predicates of spec/ref/Refine.tla (J_Refine)",
          text="Total measure equal (times height), each child inside its parent (exact point-in-cell), each child exactly one parent, valid grids; refine_grid_1d also "
@@ -132,7 +132,7 @@ CHECKS = [
          text="cell_faces_as_dense, cell_connection_map (symmetric), boundary tags (exactly one adjacent cell), signs_and_cells_of_boundary_faces (scrambled face lists), "
               "cell_nodes and divergence(d) = Div kron I_d for d = 1..3, on chains / quad / triangle patches with holes, split faces, orientation masks, and on Cartesian, "
               "simplex, fractured and extracted real grids. Exact integer comparison.",
-         note="Includes query - in-place topology update (fracture splitting, propagation) - query scenarios on the same grid objects. Complexes up to 8 cells."),
+         note="Includes query - in-place topology update (fracture splitting, propagation) - query scenarios on the same grid objects. Complexes up to 8 cells. Clause QueriesPure: the queries must leave the incidence unchanged."),
     dict(id="C22", level=MC, technique="TLC enumerates (fine, coarse) pairs and cell subsets (spec/ref/PartitionEnum.tla) and judges partition_structured, partition_coordinates, "
          "overlap and extract_subgrid against spec/ref/Partition.tla (J_Partition)",
          text="Every (fine, coarse) with fine <= 7 per direction in 2D (3D sample): one id per cell within range, each part a box; overlap equals the k-fold closed "
@@ -144,7 +144,7 @@ CHECKS = [
          text="On every nonzero-flux face the upwind matrix selects exactly the cell the flux leaves (none on Neumann and Dirichlet-inflow faces), boundary matrices have "
               "exact support, Kronecker expansion for 1-3 components; an explicit step computed by TLC in rationals from porepy's own matrices conserves the total and "
               "stays within the initial bounds under the CFL limit.",
-         note="Every flux field is realised at magnitudes 2^-40, 1 and 2^30 (the selection clause is about NONZERO fluxes, however small). Zero-flux faces are outside the selection clause; transport only in 2D; Robin faces excluded."),
+         note="Every flux field is realised at magnitudes 2^-40, 1 and 2^30 (the selection clause is about NONZERO fluxes, however small). Zero-flux faces are outside the selection clause; transport only in 2D; Robin faces excluded. Every case is the second discretisation of its data dictionary (the first one uses the complementary boundary types)."),
     dict(id="C46", level=MC, technique="TLC model-checks the dictionary clauses on the transition graph recorded from the real SparseNdArray (M_SparseNd); every recorded edge "
          "trace-validated against spec/sys/SparseNd.tla (T_SparseNd); design check Impl represents Ref",
          text="Histories of up to 3 add calls (batches of up to 3 coordinates with duplicates, additive and overwriting) and reads at every state, in 1-D and 2-D boxes of "
@@ -198,7 +198,7 @@ CHECKS = [
               "exactly, term-valued entries against a porepy-free numpy evaluation of the term TLC built by the chain rule. The dual-number closed forms are "
               "checked against the ring axioms by TLC; the calculus table is cross-validated by central differences on every run.",
          note="Transcendental values are compared under the tolerance policy of DESIGN section 8 (<= 1e-9 pass, > 1e-6 violation, between inconclusive; 0 "
-              "inconclusive observed). Kinks/ties and ill-conditioned arguments are outside the family (counted per reason). The calculus table is trusted base."),
+              "inconclusive observed). Kinks/ties and ill-conditioned arguments are outside the family (counted per reason). The calculus table is trusted base. Includes a point with an entry exactly 0 under positive integer powers."),
     dict(id="C02", level=MC, technique="TLC enumerates the typed operator-expression space (spec/ref/OperatorTreeEnum.tla) with Python dispatch, node building, the parser's "
          "case analysis and the direct reference semantics (OperatorTree.tla); real evaluation through EquationSystem judged against direct AdArray evaluation (J_OperatorTree)",
          text="All well-typed expressions of depth <= 1 over 27 leaves (variables and md-variables in current / previous-time / previous-iterate states, Scalar, Dense/"
@@ -207,14 +207,14 @@ CHECKS = [
               "entry points and compared with the program TLC derives for direct forward-mode evaluation: value, Jacobian, value-only agreement, previous time/iterate "
               "sub-expressions evaluate to stored values with no derivative. Design laws (Parse(Build(e)) agrees with Direct(e)) are checked on the whole space.",
          note="Leaves include md-variables whose sub-variables are not in md-grid order; composites are shifted by 1 and 2 steps in time and iterate. Exact comparison on rationals with denominator <= 1000, tolerance policy otherwise. Variables on interfaces and unary minus are not generated; the built "
-              "tree vs the Build model is conformance only (DRIFT)."),
+              "tree vs the Build model is conformance only (DRIFT). Every tree that contains the Scalar leaf is evaluated again after Scalar.set_value (clause AfterSetValueAgrees)."),
     dict(id="C11", level=EX, technique="TLC enumerates grids x integer SPD tensors x boundary masks (spec/ref/FvOracleEnum.tla), computes the exact Darcy fluxes of linear fields "
          "(FvOracle.tla on GridGeom) and judges pp.Mpfa's output (J_FvOracle)",
          text="Black-box exact oracle: on Cartesian, simplex, non-uniform, perturbed and sheared integer-coordinate grids in 2D/3D, flux * p + bound_flux * bc must equal "
               "-(n_f . K g) on every face, a constant pressure gives zero flux and the boundary pressure reconstruction returns p(x_f); the oracle's own laws (per-cell "
               "flux balance) are checked by TLC.",
          note="The local interaction-region mechanism is not modelled. Doubles are compared with the exact rationals under the tolerance policy (0 inconclusive). One known "
-              "finding: singular one-cell corner region (exact predicate DegenerateCorners). Default mpfa_eta only."),
+              "finding: singular one-cell corner region (exact predicate DegenerateCorners). Default mpfa_eta only. Every second 2D grid is embedded in a tilted plane by a rational rigid motion (tensor rotated accordingly)."),
     dict(id="C12", level=TV, technique="TLC holds a transcription of the TPFA kernel as rational matrices (TpfaRef in spec/ref/FvOracle.tla) and judges porepy's flux, bound_flux and "
          "bound_pressure matrices entrywise plus the structural clauses (J_FvOracle)",
          text="For any valid grid and per-cell SPD tensor: div * flux symmetric, single-valued face flux, zero flux for constants (evaluated by TLC on porepy's own matrices); on "
@@ -225,17 +225,17 @@ CHECKS = [
          "exact fluxes and pressures (J_FvOracle)",
          text="Black-box exact oracle: with Dirichlet data from a linear pressure, extract_flux / extract_pressure must give the exact face fluxes and cell-centre pressures on "
               "1D-3D simplex grids; mass matrices symmetric and positive definite.",
-         note="Positive definiteness (Cholesky succeeds) and the 1e-12 symmetry fallback are float predicates relayed to TLC. The local mass-matrix mechanism is not modelled."),
+         note="Positive definiteness (Cholesky succeeds) and the 1e-12 symmetry fallback are float predicates relayed to TLC. The local mass-matrix mechanism is not modelled. One RT0 and one MVEM object serve all grids in turn."),
     dict(id="C13", level=EX, technique="TLC enumerates grids, Lame parameters, displacement gradients and admissible boundary assignments (spec/ref/MechOracleEnum.tla), computes exact "
          "tractions (MechOracle.tla) and judges pp.Mpsa's output (J_MechOracle)",
          text="Black-box exact oracle: stress * u + bound_stress * bc equals (2 mu sym(G) + lambda tr(G) I) n_f on every non-Neumann face for all-Dirichlet data, any 2D "
               "Dirichlet/Neumann mix and 3D mixes without two Neumann faces sharing an edge (admissibility computed by TLC on the incidence); translations give zero traction; "
               "boundary displacement reconstruction exact on Dirichlet faces.",
-         note="Tolerance policy for doubles (0 inconclusive). Thorough also runs the split path and both local inverters. Boundary assignments sampled."),
+         note="Tolerance policy for doubles (0 inconclusive). Thorough also runs the split path and both local inverters. Boundary assignments sampled. Includes triangular-prism grids (faces with 3 and 4 nodes)."),
     dict(id="C15", level=EX, technique="TLC computes exact div(u)|c| and -alpha p n_f on enumerated grids (MechOracle.tla) and judges the Biot coupling matrices (J_MechOracle)",
          text="div_u and bound_div_u applied to a linear displacement give tr(G)|c| per cell; scalar_gradient applied to a constant pressure gives -alpha p n_f per face and "
               "component, for scalar and tensor coupling coefficients, with Dirichlet mechanical data.",
-         note="Black-box oracle; tolerance policy for doubles."),
+         note="Black-box oracle; tolerance policy for doubles. The quick tier sends two 2D grids through the split path."),
     dict(id="C16", level=EX, technique="TLC enumerates grids and translations; zero TPSA stress and the solved translation judged (J_MechOracle)",
          text="A uniform displacement with matching Dirichlet data gives zero stress on every face; solving the assembled TPSA system returns the translation with zero rotation "
               "and solid pressure (within 1e-8) on Cartesian, simplex and perturbed grids in 2D/3D with Dirichlet or mixed data.",
@@ -262,14 +262,14 @@ CHECKS = [
          text="Programs of up to 3 (thorough 4) statements over up to 3 slicers (permutations, injections, restrictions, 7 constructor forms, transposes, chains, pending "
               "left operands) applied to vectors, 2-D arrays, sparse matrices, AdArrays and scalars: each result equals the value of the expression as written with "
               "explicit 0/1 matrices. The mechanism (one pending slot) is modelled and checked against the reference at design level.",
-         note="One known finding (a second pending operand overwrites the first). ndarray / AdArray left operands and other documented-unsupported forms are outside the family."),
+         note="One known finding (a second pending operand overwrites the first). ndarray / AdArray left operands and other documented-unsupported forms are outside the family. Configuration 'reuse': one slicer object applied to two sparse / AD operands of equal shape and entry count."),
     dict(id="C45", level=MC, technique="TLC enumerates pairs (tree, rebuilt tree or single-site mutation) over all leaf kinds (spec/ref/OperatorKeysEnum.tla) and judges _key / hash "
          "equality of the really built operators against StructEq (J_OperatorKeys)",
          text="Structurally identical trees (built separately, cold and with warm key caches) must have equal keys and hashes; trees differing in one site (scalar value, array "
               "entry / shape / format, variable name / domain / time or iterate shift, projection domain size / range size / indices / transposition, operation tag, "
               "function, child order, association) must have different keys. A TLA transcription of every _key is compared as DRIFT.",
          note="Shifted leaves are also built as chains of single shifts with the key cached in between, and whole trees are shifted after hashing. Four known findings (functions, domain kind, ProjectionList repr, abbreviated long index arrays). Two descriptions of the same projection matrix and post-build "
-              "mutation (Scalar.set_value) are not judged."),
+              "mutation (Scalar.set_value) are not judged. Mutations include the same domains in the opposite order."),
     dict(id="C25", level=MC, technique="TLC enumerates lattice fracture networks and computes the unique conforming md-grid (spec/ref/FracMesh.tla, FracMeshEnum.tla); the real "
          "meshed md-grids are exported and judged (J_FracMesh); simplex (gmsh) and tensor meshes judged by the validity predicates",
          text="All admissible networks of 1-3 axis-aligned line fractures on small 2D lattices and rectangles on small 3D lattices (X/T/L configurations, fractures "
